@@ -106,6 +106,27 @@ func (e *Env) Perturb(r *rng.R, t *spec.Target, o spec.Out, kind string) string 
 		_ = os.WriteFile(abs, []byte("modified by harness, mode flipped\n"), fi.Mode())
 		_ = os.Chmod(abs, fi.Mode()^0111)
 		name = "out-modified-and-exec-bit-flipped"
+	case "symlink":
+		// a symbolic link sits where the file output should be: dangling, or pointing at a file
+		// with other content (the link target lives outside the workspace, in the case directory)
+		if o.Kind != "file" {
+			return ""
+		}
+		if _, err := os.Lstat(abs); err != nil {
+			return ""
+		}
+		dst := filepath.Join(e.Dir, "link-targets", fmt.Sprintf("%x", sha256.Sum256([]byte(abs)))[:12])
+		_ = os.MkdirAll(filepath.Dir(dst), 0755)
+		_ = os.Remove(dst)
+		name = "out-is-a-dangling-symlink"
+		if r.Chance(1, 2) {
+			_ = os.WriteFile(dst, []byte("content of the link target\n"), 0644)
+			name = "out-is-a-symlink-to-another-file"
+		}
+		_ = os.RemoveAll(abs)
+		if os.Symlink(dst, abs) != nil {
+			return ""
+		}
 	case "chmod":
 		if o.Kind != "file" {
 			return ""
@@ -125,6 +146,10 @@ func (e *Env) Perturb(r *rng.R, t *spec.Target, o spec.Out, kind string) string 
 }
 
 var PerturbKinds = []string{"deleted", "parent-dir-deleted", "modified", "truncated", "extra", "file-where-dir"}
+
+// PerturbKindsExec adds states of an output path that only the executed-set oracle (C02) judges:
+// how a restore deals with a symlink at the path is not part of C06's statement.
+var PerturbKindsExec = append([]string{"symlink"}, PerturbKinds...)
 
 // CachedTargetsWithOutputs lists targets that the model will restore on the next full build.
 func (e *Env) CachedTargetsWithOutputs() []*spec.Target {
